@@ -4,4 +4,6 @@ package server
 
 func verifGate(name string) {}
 
+func verifGateStop(name, id string, stop <-chan struct{}) {}
+
 func verifTrace(ev string, fields ...interface{}) {}
